@@ -84,14 +84,76 @@ def _run_one(args):
             "inconclusive": chk.inconclusive[:2], "detail": (bad[0].detail[:160] if bad else "")}
 
 
+def seeded_overlay(patch_path: str, repo_root: str):
+    """Apply a seeded patch to scratch copies of the files it touches (never to /repo) and return them as an overlay; None if it does not apply."""
+    import shutil
+    import subprocess
+    import tempfile
+
+    text = open(patch_path, encoding="utf-8").read()
+    files = re.findall(r"^\+\+\+ b/(\S+)", text, flags=re.M)
+    d = tempfile.mkdtemp(prefix="verif-seed-")
+    try:
+        for f in files:
+            src = os.path.join(repo_root, f)
+            if not os.path.exists(src):
+                return None
+            os.makedirs(os.path.dirname(os.path.join(d, f)), exist_ok=True)
+            shutil.copy(src, os.path.join(d, f))
+        p = subprocess.run(["patch", "-p1", "-s", "--no-backup-if-mismatch", "-i", patch_path], cwd=d, capture_output=True, text=True)
+        if p.returncode != 0:
+            return None
+        return {f: open(os.path.join(d, f), encoding="utf-8").read() for f in files}
+    finally:
+        shutil.rmtree(d, ignore_errors=True)
+
+
+def _run_seed(args):
+    pid, name = args
+    sys.path.insert(0, report.VERIF)
+    import check as check_mod
+
+    base = source.Repo()
+    ov = seeded_overlay(os.path.join(report.VERIF, "seeded", name, "patch.diff"), base.root)
+    if ov is None:
+        return {"name": f"seeded/{name}", "kind": "break", "status": "skipped", "detail": "patch does not apply to this tree"}
+    chk = check_mod.run_property(pid, "quick", repo=base.with_overlay(ov), quiet=True)
+    known = chk._known()
+    bad = [o for o in chk.obligations if not o.ok and not any(e.get("rule") == o.rule and e.get("construct") and e["construct"] in o.key for e in known)]
+    return {"name": f"seeded/{name}", "kind": "break", "status": "detected" if bad else ("inconclusive" if chk.inconclusive else "MISSED"), "rules": sorted({o.rule for o in bad}),
+            "detail": bad[0].detail[:160] if bad else "", "inconclusive": chk.inconclusive[:2]}
+
+
+def seeded_for(pid: str) -> list[str]:
+    """seeded mutants recorded as detected by (or seeded for) this property."""
+    import json
+
+    out = []
+    sd = os.path.join(report.VERIF, "seeded")
+    if not os.path.isdir(sd):
+        return out
+    for name in sorted(os.listdir(sd)):
+        mp = os.path.join(sd, name, "meta.json")
+        if os.path.exists(mp):
+            try:
+                m = json.load(open(mp))
+            except ValueError:
+                continue
+            if pid in (m.get("detected_by") or {}):
+                out.append(name)
+    return out
+
+
 def run_battery(pid: str, chk=None, jobs: int | None = None) -> dict:
     mod = importlib.import_module(f"rules.{pid}")
     variants = getattr(mod, "VARIANTS", [])
     if not variants:
         return {"variants": 0}
     jobs = jobs or min(16, os.cpu_count() or 4, len(variants))
+    seeds = seeded_for(pid)
     with ProcessPoolExecutor(max_workers=jobs) as ex:
         results = list(ex.map(_run_one, [(pid, i) for i in range(len(variants))]))
+        results += list(ex.map(_run_seed, [(pid, n) for n in seeds]))
     summary = {
         "variants": len(results),
         "breaking_detected": sum(1 for r in results if r["status"] == "detected"),
